@@ -220,17 +220,19 @@ func (c *fxConn) InjectStream() *fxStream {
 	vs.Send(-9, c.incoming, s)
 	return s
 }
-func (c *fxConn) As(any) bool                           { return false }
-func (c *fxConn) LocalPeer() peer.ID                    { return c.local.ID }
-func (c *fxConn) RemotePeer() peer.ID                   { return c.remote.ID }
-func (c *fxConn) RemotePublicKey() ic.PubKey            { return c.remote.Pub }
-func (c *fxConn) ConnState() network.ConnectionState    { return network.ConnectionState{} }
-func (c *fxConn) LocalMultiaddr() ma.Multiaddr          { return c.laddr }
-func (c *fxConn) RemoteMultiaddr() ma.Multiaddr         { return c.raddr }
-func (c *fxConn) Scope() network.ConnScope              { return &network.NullScope{} }
-func (c *fxConn) Transport() transport.Transport        { return c.tpt }
-func (c *fxConn) Stat() network.ConnStats               { return network.ConnStats{Stats: network.Stats{Limited: c.limited}} }
-func (c *fxConn) String() string                        { return "fxConn(" + c.name + ")" }
+func (c *fxConn) As(any) bool                        { return false }
+func (c *fxConn) LocalPeer() peer.ID                 { return c.local.ID }
+func (c *fxConn) RemotePeer() peer.ID                { return c.remote.ID }
+func (c *fxConn) RemotePublicKey() ic.PubKey         { return c.remote.Pub }
+func (c *fxConn) ConnState() network.ConnectionState { return network.ConnectionState{} }
+func (c *fxConn) LocalMultiaddr() ma.Multiaddr       { return c.laddr }
+func (c *fxConn) RemoteMultiaddr() ma.Multiaddr      { return c.raddr }
+func (c *fxConn) Scope() network.ConnScope           { return &network.NullScope{} }
+func (c *fxConn) Transport() transport.Transport     { return c.tpt }
+func (c *fxConn) Stat() network.ConnStats {
+	return network.ConnStats{Stats: network.Stats{Limited: c.limited}}
+}
+func (c *fxConn) String() string { return "fxConn(" + c.name + ")" }
 
 var _ transport.CapableConn = (*fxConn)(nil)
 var _ network.ConnStat = (*fxConn)(nil)
@@ -251,6 +253,7 @@ type fxDial struct {
 	Result      string
 	ForceDirect bool
 	Conn        *fxConn
+	DeadAtStart bool // the context handed to Dial was already cancelled (the dial belongs to a worker whose callers have all gone)
 }
 
 type fxTransport struct {
@@ -293,6 +296,7 @@ func (t *fxTransport) dial(ctx context.Context, raddr ma.Multiaddr, p peer.ID, u
 	t.mu.Lock()
 	t.dials = append(t.dials, rec)
 	t.mu.Unlock()
+	rec.DeadAtStart = ctx.Err() != nil
 	if t.hook != nil {
 		t.hook(rec, true)
 		defer t.hook(rec, false)
@@ -398,10 +402,10 @@ type fxNote struct {
 }
 
 type fxNotifiee struct {
-	mu      sync.Mutex
-	notes   []*fxNote
-	onConn  func(network.Network, network.Conn) // runs inside Connected
-	onDisc  func(network.Network, network.Conn)
+	mu     sync.Mutex
+	notes  []*fxNote
+	onConn func(network.Network, network.Conn) // runs inside Connected
+	onDisc func(network.Network, network.Conn)
 }
 
 func (n *fxNotifiee) add(kind string, c network.Conn) *fxNote {
